@@ -921,7 +921,9 @@ static int parent_main(const Scenario& sc, const Options& opt) {
         const Known* k = find_known(known, sc.id, key);
         out_lines.push_back("KNOWN-FINDING: property=" + sc.id + " " + key + " (" + std::to_string(n) + " runs) " + (k ? k->what : ""));
     }
-    if (agg.gate_mismatch || agg.harness_faults) exit_code = std::max(exit_code, 2);
+    // harness faults (a death that did not reproduce, a gate mismatch) make a run without any confirmed violation untrustworthy: exit 2.
+    // A violation that did reproduce from its replay file in a fresh process stands on its own: exit 1 (the notes still list the faults).
+    if ((agg.gate_mismatch || agg.harness_faults) && exit_code == 0) exit_code = 2;
     if (agg.evaluations == 0) exit_code = std::max(exit_code, 2);
 
     // evidence
